@@ -95,6 +95,41 @@ class AdtIndex:
         return None
 
 
+def every_name_gets_a_slot(ctx, mpq, pid):
+    """shared by C09 (parallel == sequential) and C20 (exit 0 ⇒ complete output): the request list is partitioned completely"""
+    # every requested name gets a slot: the request list is partitioned completely and nothing is dropped on the way to the result
+    R_part = ctx.rule("%s.every-name-gets-a-slot" % pid, "in the parallel modules: no remainder-dropping chunking (chunks_exact…), no take/skip/step_by, no flatten/filter_map over Option/Result items", floor=20)
+    from ..rules import ncallee as _nc
+    ALWAYS = re.compile(r"::(chunks_exact|par_chunks_exact|rchunks_exact|par_rchunks_exact|array_chunks|step_by|take|skip|take_while|skip_while|map_while|take_any|skip_any)$")
+    ITEM = re.compile(r"::(flatten|flat_map|filter_map|flatten_iter|flat_map_iter)$")
+    for f in mpq.fn_list:
+        if not f.file.endswith(MODULE_FILES) or "::tests::" in f.path or not f.mir.get("blocks"):
+            continue
+        for bb, t in mirg.iter_calls(f):
+            cn = _nc(t) or ""
+            if t.get("x"):
+                continue
+            if ALWAYS.search(cn) and not re.search(r"std::io::|Read::take", cn):
+                ctx.saw_fn(f)
+                ctx.bad(R_part, "%s|%s" % (re.sub(r"::\{closure#\d+\}", "", norm(f.path)).split("::")[-1], cn.split("::")[-1]), "%s:%d" % (f.file, t["ln"]), "`%s` in the parallel extraction path" % cn.split("::")[-1],
+                        "part of the request (the remainder batch, a prefix, every n-th name) never reaches a worker: the parallel call returns fewer slots than a sequential loop, with no error")
+            elif ITEM.search(cn):
+                l0 = mirg.op_local(t["a"][0]) if t["a"] else None
+                ty = (mpq.ty(f.mir["locals"][l0][0]) or "") if l0 is not None else ""
+                m_ = re.search(r"(?:IntoIter|Iter|IterMut|Drain)<(?:'\w+, )?([\w:]+)", ty)
+                item = m_.group(1) if m_ else ""
+                ctx.saw_fn(f)
+                if re.search(r"option::Option$|result::Result$", item):
+                    ctx.bad(R_part, "%s|%s|option-items" % (re.sub(r"::\{closure#\d+\}", "", norm(f.path)).split("::")[-1], cn.split("::")[-1]), "%s:%d" % (f.file, t["ln"]), "`%s` over %s items" % (cn.split("::")[-1], item.split("::")[-1]),
+                            "slots that hold None / Err are silently removed from the result: positions no longer correspond to the request")
+                else:
+                    ctx.ok(R_part, {"fn": norm(f.path), "adapter": cn.split("::")[-1], "items": item or ty[:40]})
+            elif re.search(r"::(chunks|par_chunks|par_iter|into_par_iter|par_bridge|iter|into_iter)$", cn):
+                ctx.rules[R_part]["obligations"] += 1
+                ctx.rules[R_part]["discharged"] += 1
+
+
+
 def run(ctx):
     prog = ctx.prog
     mpq = prog.crate("wow_mpq")
@@ -127,36 +162,7 @@ def run(ctx):
         else:
             ctx.ok(R_own, {"fn": norm(f.path)})
 
-    # every requested name gets a slot: the request list is partitioned completely and nothing is dropped on the way to the result
-    R_part = ctx.rule("C09.every-name-gets-a-slot", "in the parallel modules: no remainder-dropping chunking (chunks_exact…), no take/skip/step_by, no flatten/filter_map over Option/Result items", floor=20)
-    from ..rules import ncallee as _nc
-    ALWAYS = re.compile(r"::(chunks_exact|par_chunks_exact|rchunks_exact|par_rchunks_exact|array_chunks|step_by|take|skip|take_while|skip_while|map_while|take_any|skip_any)$")
-    ITEM = re.compile(r"::(flatten|flat_map|filter_map|flatten_iter|flat_map_iter)$")
-    for f in mpq.fn_list:
-        if not f.file.endswith(MODULE_FILES) or "::tests::" in f.path or not f.mir.get("blocks"):
-            continue
-        for bb, t in mirg.iter_calls(f):
-            cn = _nc(t) or ""
-            if t.get("x"):
-                continue
-            if ALWAYS.search(cn) and not re.search(r"std::io::|Read::take", cn):
-                ctx.saw_fn(f)
-                ctx.bad(R_part, "%s|%s" % (re.sub(r"::\{closure#\d+\}", "", norm(f.path)).split("::")[-1], cn.split("::")[-1]), "%s:%d" % (f.file, t["ln"]), "`%s` in the parallel extraction path" % cn.split("::")[-1],
-                        "part of the request (the remainder batch, a prefix, every n-th name) never reaches a worker: the parallel call returns fewer slots than a sequential loop, with no error")
-            elif ITEM.search(cn):
-                l0 = mirg.op_local(t["a"][0]) if t["a"] else None
-                ty = (mpq.ty(f.mir["locals"][l0][0]) or "") if l0 is not None else ""
-                m_ = re.search(r"(?:IntoIter|Iter|IterMut|Drain)<(?:'\w+, )?([\w:]+)", ty)
-                item = m_.group(1) if m_ else ""
-                ctx.saw_fn(f)
-                if re.search(r"option::Option$|result::Result$", item):
-                    ctx.bad(R_part, "%s|%s|option-items" % (re.sub(r"::\{closure#\d+\}", "", norm(f.path)).split("::")[-1], cn.split("::")[-1]), "%s:%d" % (f.file, t["ln"]), "`%s` over %s items" % (cn.split("::")[-1], item.split("::")[-1]),
-                            "slots that hold None / Err are silently removed from the result: positions no longer correspond to the request")
-                else:
-                    ctx.ok(R_part, {"fn": norm(f.path), "adapter": cn.split("::")[-1], "items": item or ty[:40]})
-            elif re.search(r"::(chunks|par_chunks|par_iter|into_par_iter|par_bridge|iter|into_iter)$", cn):
-                ctx.rules[R_part]["obligations"] += 1
-                ctx.rules[R_part]["discharged"] += 1
+    every_name_gets_a_slot(ctx, mpq, "C09")
 
     fns = [f for f in mpq.fn_list if f.kind != "Closure" and f.file.endswith(MODULE_FILES) and f.hir]
     # skip #[cfg(test)] — not compiled by `check`, so nothing to skip explicitly
